@@ -35,7 +35,12 @@ class GhostFS:
         class _File:
             def __init__(self, fn, mode):
                 self.fn, self.mode = fn, mode
-                if "w" in mode:
+                if "x" in mode:                   # exclusive creation
+                    if fn in fs.files:
+                        raise FileExistsError(17, "File exists", fn)
+                    fs.files[fn] = ("torn", None) if "b" in mode else ("complete", "")
+                    fs.tick(f"create {_os.path.basename(fn)}")
+                elif "w" in mode:
                     fs.files[fn] = ("torn", None) if "b" in mode else ("complete", "")
                     fs.tick(f"truncate {_os.path.basename(fn)}")
                 elif "a" in mode:
@@ -49,7 +54,7 @@ class GhostFS:
                 return self
 
             def __exit__(self, *a):
-                if "w" in self.mode or "a" in self.mode:
+                if "w" in self.mode or "a" in self.mode or "x" in self.mode:
                     fs.tick(f"close {_os.path.basename(self.fn)}")
                 return False
 
